@@ -581,16 +581,17 @@ def gen(rng, tier):
     special = [b"'", b'"', b"&", b"<", b">", b"=", b"/", b" ", b"\t", b"\n", b"]]>", b"--", b"&amp;", b"&apos;", b"&#39;", b"&#x27;"]
     vals = special + [a + b for a in special for b in special] + [b"it's \"quoted\"", b"\"' z=\"1", b"'\" z='1", b"a'b\"c'd\"e",
                                                                  b"\"'", b"'\"", b"x=\"1\" y='2'"]
-    grp = []
-    for i, v in enumerate(vals):
+    grp, special_cases = [], []
+    for i, v in enumerate(vals[::-1]):          # the both-quote values first
         t = ("E", b"a", [(b"k", v), (b"z", vals[(i * 7 + 3) % len(vals)])], [("E", b"b", [(b"q", v)], [("T", v)])])
         tk = " ".join(tokens(t))
         grp += ["rt 0 " + tk, "rt 1 " + tk]
-        if len(grp) >= 16:
-            cases.append(grp)
+        if len(grp) >= 8:
+            special_cases.append(grp)
             grp = []
     if grp:
-        cases.append(grp)
+        special_cases.append(grp)
+    cases = special_cases + cases               # first: the engine's per-batch failure budget must not be spent before they run
     # 9. ownership histories (extension round): DOM mutators over four handle variables, under ASan/LSan
     for i in range(300 if quick else 20000):
         cases.append([own_history(rng, rng.choice([3, 6, 12, 25, 40])) for _ in range(2)])
@@ -1015,6 +1016,13 @@ LEVEL_TEXT = ("Proved in Lean 4 about the executable transcription of Xml::decod
               "are DEFINED as clearParent, so the null-parent conjuncts of the three (2c) theorems are definitional; the K ops sub / "
               "desc / mut run the real library under ASan (about half of ~1000 ops of each kind per quick run reach a node; the expat "
               "reference has an opinion on ~5-7% of them, the rest is model-vs-code plus the parent-flag oracle). "
+              "(2e) xml_parent_never_dangles / xml_handle_parent_live — on the OWNERSHIP model (AslModel/XmlOwn.lean: nodes with a stored count, an owning "
+              "child array and a raw parent pointer; orphan(), remove(int), clear(), operator<<(Xml), child(i), parent(), handle assignment "
+              "(acquire before release) and destruction, ~_Xml's orphan-then-release loop, all transcribed; four handle variables): after EVERY "
+              "history, every non-null parent pointer designates a node that is allocated, not destroyed, and holds the pointing node in its child "
+              "array — also for a child shared by two elements or appended twice, and whatever dies first. Tied by the K op `own` (600 random + 7 "
+              "directed histories per quick run under ASan/LSan, per step: which variable holds which node, parent(), children) and an independent "
+              "count-free python mirror. "
               "xml_raw_children_array_dangles states the known finding raw-children-array on the model. "
               "Tie to the code: correspondence check K (model driver vs real library under ASan/UBSan/LSan on generated documents, "
               "mutations, truncations, exhaustive short strings, DOM trees to depth 12) plus independent python oracles (expat, "
@@ -1026,9 +1034,12 @@ LEVEL_NOTE = ("Trusted: Lean kernel; the reading that produced the transcription
               "K/ASan/LSan, not proved. Memory safety of the C++ beyond the modelled stack/buffer accesses (String growth, Array realloc) "
               "and of tree destruction (recursive before fix dede87b: stack overflow at ~10^5 nesting levels) is checked by the sanitizers on the "
               "explored inputs only. "
-              "The model has no heap, no reference count and no destructor: handle lifetimes (survivor, descend, detachedBy) are postulates "
-              "checked by K only; a proof would need a handle/rc model of ~_Xml's release loop and the mutators with the invariant "
-              "'every live node's parent is null or a live node' (not done). KNOWN FINDING raw-children-array: mutating the array handed "
+              "The decoder model has no heap, no reference count and no destructor: handle lifetimes (survivor, descend, detachedBy) are postulates "
+              "of THAT model checked by K only; the separate ownership model (XmlOwn, op `own`) has them and proves 'every parent pointer is null or "
+              "a live container of the node' over all histories of its mutators, but it starts from nodes made with Xml(tag), not from a decoded "
+              "tree, and does not cover remove(Xml), put, insert, clone, Xml(tag, Array<Xml>). NOT proved there (ownership_counts_full: computed by "
+              "the driver at every step, ASan/LSan on the code): stored count = handles + owning slots, no use of a dead node, every node freed once; "
+              "a cycle of handles (a << a) leaks by construction, the generator builds none. KNOWN FINDING raw-children-array: mutating the array handed "
               "out by the non-const children() (remove/clear/resize/element assignment) runs no Xml code, the removed child keeps its "
               "parent pointer, and parent() on it reads freed memory once the former parent is destroyed; no small safe repair (the "
               "accessor exposes the raw Array<Xml>&); the generator never mutates through children(), the KNOWN probe replays it. "
